@@ -675,7 +675,11 @@ fn exec(plan: &Plan, st: &mut ExecStats) -> Result<(), Viol> {
             let s = s.min(e);
             let it = BitIter::byte_slice_window(&data, s, e);
             let key = if e % 8 != 0 { "end-unaligned" } else { "end-aligned" };
-            read_phase(plan, it, &all_bits[s..e], true, st).map_err(|mut x| {
+            // `close` on a window whose end is not byte aligned also looks at the bits of the last
+            // byte that lie beyond the window; the property is silent about those, so close is
+            // checked on windows only when their end is byte aligned (false alarm avoided by
+            // construction; start may be anywhere)
+            read_phase(plan, it, &all_bits[s..e], e % 8 != 0, st).map_err(|mut x| {
                 x.key = format!("window:{}:{}", key, x.key);
                 x.class = "window";
                 x
@@ -745,7 +749,7 @@ fn read_phase<I: Iterator<Item = u8> + ExactSizeIterator>(
     plan: &Plan,
     mut it: BitIter<I>,
     bits: &[bool],
-    window: bool,
+    skip_close: bool,
     st: &mut ExecStats,
 ) -> Result<(), Viol> {
     let total = bits.len();
@@ -965,7 +969,7 @@ fn read_phase<I: Iterator<Item = u8> + ExactSizeIterator>(
         if r.is_ok() != (rest.len() % 8 == 0) {
             return Err(v("reader-bits", "try_collect_bytes", format!("try_collect_bytes on {} bits: {:?}", rest.len(), r.is_ok())));
         }
-    } else if plan.close && !window {
+    } else if plan.close && !skip_close {
         let rest = &bits[p..];
         let want_ok = rest.len() < 8 && rest.iter().all(|b| !*b);
         let got = it.close();
@@ -1438,8 +1442,8 @@ impl Engine for C13 {
                 if r.bool() {
                     p.rops.insert(0, ROp::Len);
                 }
-                p.close = false;
                 p.collect = r.bool();
+                p.close = !p.collect;
                 self.exec_plan(&p, out);
                 out.count("window_variants", 1);
             }
